@@ -340,7 +340,12 @@ class Interp:
 
     # ---- if
     def exec_if(s, n, st):
-        t = s.truth(s.eval(n.test, st), n.test)
+        v = s.eval(n.test, st)
+        if isinstance(v, Mismatch):
+            # the test itself fails (IndexError / KeyError established by the model): an exception on this path
+            st.events.append(("definite-exception", v.why, n))
+            return ("raise",)
+        t = s.truth(v, n.test)
         return s._branch(t, n.body, n.orelse, st)
 
     def _branch(s, t, body, orelse, st):
